@@ -71,7 +71,6 @@ P_SLOTS = 3
 _LAMBDA = 1 - 1e-5
 RHO_NEAR_UNIT = _LAMBDA * (1 - 0.2 * _LAMBDA)     # puts a root of the linear model's x-equation at 1 - 1e-5
 TOL_EIG = 1e-3
-TOL_EQ = 1e-9
 
 # ---------------------------------------------------------------------------
 # value tables (rotated by the seed; the seed never selects a subset)
@@ -207,11 +206,13 @@ class SimKind:
         ops = [("assign", "rho", r[1]), ("assign", "rho", [r[2], r[1]]), ("assign", "std_shk_x", s),
                ("alter", 1), ("alter", 2), ("alter", 3), ("steady",)]
         if not quick or self.name == "lin":
-            ops += [("descr", "d1"), ("tol", "eigenvalue", TOL_EIG)]
-        if not quick and self.name == "nl":
-            ops += [("tol", "equality", TOL_EQ)]
+            ops += [("descr", "d1")]
+        if self.name == "lin":
+            ops += [("tol", "eigenvalue", TOL_EIG)]
         if not quick:
-            ops += [("assign", "c", c[1]), ("assign", "c", [c[0], c[1], c[2], c[1]])]
+            ops += [("assign", "c", [c[0], c[1], c[2], c[1]])]
+            if self.name == "nl":
+                ops += [("assign", "c", c[1])]
         # the first-order solution of a non-linear model needs a steady state to expand around
         if not self.solve_uses_steady or all(v[3] is not None for v in obj[2]):
             ops.append(("solve",))
@@ -362,8 +363,8 @@ class SimKind:
         return m[k]
 
     def outcome_class(self, obj):
-        return (len(obj[2]), tuple((v[3] is not None, v[4] is not None, v[4] is not None and (v[0], v[1]) != v[4][:2])
-                                   for v in obj[2]))
+        return (len(obj[2]), bool(obj[3]), tuple((v[3] is not None, v[4] is not None, v[4] is not None and (v[0], v[1]) != v[4][:2],
+                                                 v[4] is not None and v[4][3] != obj[3]) for v in obj[2]))
 
 
 class SeqKind:
@@ -1149,11 +1150,11 @@ def run(ctx, total, info):
     # a thorough run stopped by --cap-min reports exhaustive=False and is held to the quick floors only
     q = ctx.quick or not info["exhaustive"]
     info["floors"] = {
-        "transitions_lin": (c["transitions_lin"], 3000 if q else 70000),
+        "transitions_lin": (c["transitions_lin"], 4700 if q else 80000),
         "transitions_nl": (c["transitions_nl"], 1500 if q else 65000),
-        "transitions_seq": (c["transitions_seq"], 1000 if q else 16000),
+        "transitions_seq": (c["transitions_seq"], 1600 if q else 27000),
         "transitions_var": (c["transitions_var"], 1200 if q else 45000),
-        "states": (states, 3000 if q else 65000),
+        "states": (states, 4000 if q else 75000),
         "clones_checked": (sum(c["clones_checked_" + h] for h in CLONES), 1300 if q else 27000),
         "alias_scans_between_members": (c["alias_scans_between_members"], 2400 if q else 54000),
         "isolation_checks": (c["isolation_checks"], 7000 if q else 290000),
